@@ -7,7 +7,8 @@ from facts import short, strip_generics, show_chain, walk_chain, chain_calls
 PROPERTY = "C02"
 TITLE = "Writing one value never changes any other value"
 NEEDS = ("facts", "syn")
-TECHNIQUE = "static analysis: def-use dataflow on type-checked MIR (store width vs object width, copy length provenance), raw-store inventory (who-may-call)"
+TECHNIQUE = ("static analysis: def-use dataflow on type-checked MIR (store width vs object width, copy length provenance), raw-store inventory (who-may-call), "
+             "lexically resolved provenance of destination memory in the cast family (a conversion never writes into its source)")
 EXPLANATION = (
     "Engine A (MIR def-use chains, resolved callees): (a) every store/load whose offset is data-dependent on "
     "EnumLayout::discriminant_offset moves exactly one byte (value built by iconst(types::I8) / loaded as types::I8), because "
